@@ -69,9 +69,12 @@ func tableNumbers(archName string) []int {
 func drawListing(t *rapid.T) sitemodel.Listing {
 	l := sitemodel.Listing{Arch: []string{"x86_64", "x86_64", "i386"}[rapid.IntRange(0, 2).Draw(t, "arch")]}
 	table := tableNumbers(l.Arch)
-	triggers := []string{"SYSCALL"}
+	// mostly the architecture's own trigger instructions, now and then the other architecture's (a 64-bit program may
+	// contain INT $0x80, a listing may be offered to the wrong parser): whatever is reported for them has to be in this
+	// architecture's table under the reported name like everything else
+	triggers := []string{"SYSCALL", "SYSCALL", "SYSCALL", "SYSCALL", "SYSCALL", "SYSCALL", "INT $0x80", "SYSENTER"}
 	if l.Arch == "i386" {
-		triggers = []string{"INT $0x80", "SYSENTER"}
+		triggers = []string{"INT $0x80", "SYSENTER", "INT $0x80", "SYSENTER", "INT $0x80", "SYSENTER", "SYSCALL"}
 	}
 	nf := rapid.IntRange(1, 8).Draw(t, "nfuncs")
 	for f := 0; f < nf; f++ {
